@@ -345,6 +345,9 @@ def fam_controls(ctx, v):
     return {'fam': 'controls', 'v': v}
 
 
+NAN_UNITS = [('Pan2', 1), ('LinPan2', 1), ('Balance2', 2), ('Rotate2', 2), ('XFade2', 2), ('LinXFade2', 2), ('PanB2', 1)]
+
+
 def fam_invalid(ctx, kind):
     m = U()
     c1 = ctx.real('c1')
@@ -372,6 +375,31 @@ def fam_invalid(ctx, kind):
         elif kind == 'filter-rate':
             from sc3.synth.ugens import filter as flt
             iou.Out.ar(0, flt.LPF.ar(n.LFNoise0.kr(c1), 500))
+        elif kind == 'nan-unit':
+            # units with their own input validators (panners, cross-faders): a NaN in a numeric argument is refused at
+            # audio AND control rate; the twin with an ordinary number must build (sel['nan'] False)
+            from sc3.synth.ugens import pan
+            name, nsig = NAN_UNITS[sel['unit']]
+            rate = ('ar', 'kr')[sel['rate']]
+            sigs = [getattr(n.LFNoise0, rate)(300 + k) for k in range(nsig)]
+            r = getattr(getattr(pan, name), rate)(*sigs, float('nan') if sel['nan'] else c1)
+            getattr(iou.Out, rate)(0, r)
+    sel = {}
+    if kind == 'nan-unit':
+        sel = {'unit': ctx.choose('unit', len(NAN_UNITS)), 'rate': ctx.choose('rate', 2), 'nan': ctx.choose('nan', 2)}
+        rec['sel'] = dict(sel)
+        if not sel['nan']:
+            try:
+                build('good', g)
+            except (PathAbort, Inconclusive, Violation):
+                raise
+            except Exception as e:
+                raise Violation(f'{NAN_UNITS[sel["unit"]][0]}.{("ar", "kr")[sel["rate"]]} with ordinary arguments does '
+                                f'not build: {type(e).__name__}: {e}', None, data('valid-rejected'))
+            ctx.obligations += 1
+            ctx.discharged += 1
+            ctx.note('accepted:nan-unit-twin')
+            return {'fam': 'invalid', 'kind': kind, 'twin': True}
     try:
         sd, b, order = build('bad', g)
     except (PathAbort, Inconclusive, Violation):
@@ -441,6 +469,9 @@ class _CCtx:
         v = self.vals.get(name)
         return int(v) if v is not None else lo
 
+    def choose(self, name, n):
+        return int(self.vals.get(name, 0) or 0)
+
     def note(self, s):
         pass
 
@@ -458,7 +489,7 @@ class _CCtx:
 
 def replay(rec):
     fam = rec['fam']
-    ctx = _CCtx(rec.get('values', {}))
+    ctx = _CCtx(dict(rec.get('values', {}), **rec.get('sel', {})))
     try:
         if fam == 'wide':
             fam_wide(ctx, rec['v'])
@@ -506,7 +537,7 @@ def main(tier, seed):
         for gate in (0, 1):
             for r in (rates_opts if tier == 'thorough' else rates_opts[:4]):
                 jobs.append(dict(fam='controls', v=dict(sizes=list(sizes), gate=gate, rates=r)))
-    kinds = ['rate', 'rate-mixed', 'nan', 'nan-arith', 'str', 'none', 'filter-rate']
+    kinds = ['rate', 'rate-mixed', 'nan', 'nan-arith', 'str', 'none', 'filter-rate', 'nan-unit']
     jobs += [dict(fam='invalid', kind=k) for k in kinds]
     for r in run_jobs('vf.props.c02', 'job', jobs, 'nrt'):
         chk.add('families', r)
